@@ -18,6 +18,7 @@ import tempfile
 from harness import core, gen, histcheck, isoapi
 from harness.props import c01
 
+CLAIM = False      # not registered until the refusal paths are repaired / recorded and Props/C14.lean exists
 LEAN_MODULES = ['Pycdlib.Props.C14']
 THEOREMS = ['Pycdlib.Atomic.refused_unchanged', 'Pycdlib.Atomic.run_skips_refused', 'Pycdlib.Atomic.partial_witness']
 PARTIAL = {
